@@ -384,6 +384,10 @@ func Fact(t Src, d Domain, label string) *facts.Fact {
 	for i := range f.RO {
 		f.RO[i] = gi(reflect.Int64, "RO")
 	}
+	f.ROM = map[string]int64{}
+	for _, k := range MapKeys {
+		f.ROM[k] = gi(reflect.Int64, "ROM")
+	}
 	f.Subs = make([]*facts.Sub, SubsLen)
 	for i := range f.Subs {
 		f.Subs[i] = genSub(t, d, label+"Subs")
